@@ -139,14 +139,12 @@ Print Assumptions C20_monitor_faithful.
     ("ResetTime", EndTime R:handler:[], Inc W:handler:[L:mux]), see C20_unlocked_endtime_refuted. *)
 Definition C20_known_races : list kpair := [].
 
+(** The table is there and not trivial (the struct was found; it has writes that hold a mutex). *)
 Theorem C20_table_present :
   existsb (String.eqb "IPRequestLimiter") Access.missing = false /\
-  has_func Access.IPRequestLimiter "IPRequestLimiter.Inc" = true /\
-  has_func Access.IPRequestLimiter "IPRequestLimiter.Count" = true /\
-  has_func Access.IPRequestLimiter "IPRequestLimiter.EndTime" = true /\
-  has_field Access.IPRequestLimiter "ResetTime" = true /\
-  has_field Access.IPRequestLimiter "Counters[]" = true.
-Proof. vm_compute. repeat split.
+  existsb (fun a => a_write a && negb (role_eqb (a_role a) RInit) &&
+                    existsb (fun l => negb (lock_shared l)) (a_locks a)) Access.IPRequestLimiter = true.
+Proof. vm_compute. split; reflexivity.
 Qed.
 
 (** Every pair of accesses to the same field of IPRequestLimiter that may run concurrently, with
@@ -156,11 +154,15 @@ Proof. vm_compute. reflexivity.
 Qed.
 Print Assumptions C20_lockset.
 
-(** Inc and Count touch the limiter's fields only while holding the mutex exclusively. *)
-Theorem C20_inc_count_locked :
-  forallb (fun a => negb (String.eqb (a_func a) "IPRequestLimiter.Inc" || String.eqb (a_func a) "IPRequestLimiter.Count" ||
-                          String.eqb (a_func a) "IPRequestLimiter.dump")
-                    || existsb (String.eqb "L:mux") (a_locks a))
+(** Every access outside initialisation to a field that is written outside initialisation holds a
+    mutex of the limiter exclusively (whatever functions and mutex are called): the methods that
+    touch the mutable state (Inc, Count, EndTime, dump) do so inside a critical section. *)
+Definition mutable_field (A : list access) (f : string) : bool :=
+  existsb (fun a => String.eqb (a_field a) f && a_write a && negb (role_eqb (a_role a) RInit)) A.
+
+Theorem C20_mutable_state_locked :
+  forallb (fun a => role_eqb (a_role a) RInit || negb (mutable_field Access.IPRequestLimiter (a_field a))
+                    || existsb (fun l => negb (lock_shared l)) (a_locks a))
           Access.IPRequestLimiter = true.
 Proof. vm_compute. reflexivity.
 Qed.
